@@ -564,6 +564,51 @@ func c18objects(seed int64, keys *gen.KeyRing, n int) []*c18object {
 			out = append(out, o)
 		}
 	}
+	// keys whose x or y lost a leading zero octet (Go's big integers drop it), with the trimmed coordinates held
+	// in slices that have spare capacity - as they do when they are sub-slices of a larger buffer: encoding pads
+	// them to the field size, and must do so in memory of its own
+	rk := mon.NewRand(uint64(seed)).Sub(18500)
+	for ci, cv := range []elliptic.Curve{elliptic.P256(), elliptic.P384(), elliptic.P521()} {
+		alg := []cose.Algorithm{cose.AlgorithmES256, cose.AlgorithmES384, cose.AlgorithmES512}[ci]
+		for coord := 0; coord < 2; coord++ {
+			priv := c14search(cv, rk, coord, 1, 200000, 1)
+			if priv == nil {
+				continue
+			}
+			ck, err := cose.NewKeyFromPrivate(priv)
+			if err != nil {
+				continue
+			}
+			for _, l := range []int64{-2, -3, -4} {
+				if b, ok := ck.Params[l].([]byte); ok {
+					nb := make([]byte, len(b), len(b)+80)
+					copy(nb, b)
+					ck.Params[l] = nb
+				}
+			}
+			signer, err := cose.NewSigner(alg, priv)
+			if err != nil {
+				continue
+			}
+			msg := rk.Bytes(20)
+			sig, _ := signer.Sign(gen.Entropy, msg)
+			o := &c18object{name: fmt.Sprintf("key-short-%s-coord%d", cv.Params().Name, coord), kind: "key", alg: fmt.Sprint(alg), dec: false}
+			o.state = func() []any { return []any{ck, msg, sig} }
+			o.ops = []c18op{
+				{"Key.MarshalCBOR", func() string { return resBytes(ck.MarshalCBOR()) }},
+				{"Key.Verifier+Verify", func() string {
+					v, err := ck.Verifier()
+					if err != nil {
+						return "err:" + err.Error()
+					}
+					return resErr(v.Verify(msg, sig))
+				}},
+				{"Key.PublicKey", func() string { p, err := ck.PublicKey(); return fmt.Sprintf("%v %v", p, err) }},
+				{"Key.Signer", func() string { _, err := ck.Signer(); return resErr(err) }},
+			}
+			out = append(out, o)
+		}
+	}
 	return out
 }
 
